@@ -196,6 +196,20 @@ func c17(r *engine.Report, p *engine.Program) {
 		for _, ci := range callsTo(fn, "(*sync.Once).Do") {
 			once = append(once, ci)
 		}
+		// a private helper that itself always performs the Once.Do (e.g. signalDone())
+		for _, ci := range engine.CallsIn(fn) {
+			callee := ci.Common().StaticCallee()
+			if callee == nil || !p.IsReceptorFn(callee) || callee.Blocks == nil {
+				continue
+			}
+			var inner []ssa.Instruction
+			for _, c2 := range callsTo(callee, "(*sync.Once).Do") {
+				inner = append(inner, c2)
+			}
+			if len(inner) > 0 && engine.Reach(callee, nil, nil, func(in ssa.Instruction) bool { return isOneOf(in, inner) }, func(in ssa.Instruction) bool { _, ok := in.(*ssa.Return); return ok }) == nil {
+				once = append(once, ci)
+			}
+		}
 		bad := engine.Reach(fn, nil, nil, func(in ssa.Instruction) bool { return isOneOf(in, once) }, func(in ssa.Instruction) bool { _, ok := in.(*ssa.Return); return ok })
 		r.Check("R2-done-signalled", n+": done channel closed on every path", fn.Pos(), len(once) == 1 && bad == nil,
 			"every path to a return passes doneOnce.Do(close(doneChan)): the goroutines watching this object are always released", "a path returns without closing the done channel (e.g. after an error of the stream close): watcher goroutines and subscriptions of this connection leak")
